@@ -7,6 +7,7 @@ require (
 	github.com/getlantern/bytemap v0.0.0-20210122162547-b07440a617f0
 	github.com/getlantern/goexpr v0.0.0-20211215215226-4cdd4fd2847b
 	github.com/getlantern/golog v0.0.0-20210606115803-bce9f9fe5a5f
+	github.com/getlantern/wal v0.0.0-20220217194315-e4eac848dbd1
 	github.com/getlantern/zenodb v0.0.0
 	pgregory.net/rapid v1.3.0
 )
@@ -27,7 +28,6 @@ require (
 	github.com/getlantern/ops v0.0.0-20200403153110-8476b16edcd6 // indirect
 	github.com/getlantern/sqlparser v0.0.0-20171012210704-a879d8035f3c // indirect
 	github.com/getlantern/vtime v0.0.0-20160810174823-dc1e573cf991 // indirect
-	github.com/getlantern/wal v0.0.0-20220217194315-e4eac848dbd1 // indirect
 	github.com/getlantern/yaml v0.0.0-20190801163808-0c9bb1ebf426 // indirect
 	github.com/go-redis/redis/v8 v8.11.3 // indirect
 	github.com/go-stack/stack v1.8.1 // indirect
